@@ -228,7 +228,8 @@ def one_history(ctx, index: int, rng: random.Random):
                 if ws is None:
                     h.fill_n(arg)
                 else:
-                    h.fill_n(arg, np.asarray(ws))
+                    nw_, _ = gen.narrow_weights(rng, ws, p=0.3)  # e.g. float16 / float32: sums are not taken in that type
+                    h.fill_n(arg, nw_ if nw_ is not None else np.asarray(ws))
                 m = ~np.isnan(r).any(axis=1) if n else np.zeros(0, dtype=bool)
                 ledger_rows = np.vstack([ledger_rows, r[m]])
                 ledger_w += [1] * int(m.sum()) if ws is None else [x for x, keep in zip(ws, m) if keep]
